@@ -284,7 +284,7 @@ func (f *Frame) constToVal(v constant.Value, t types.Type) *Val {
 func (f *Frame) localByName(name string, st *State) *Val {
 	var found *Val
 	for v, val := range f.vals {
-		if a, ok := v.(*ssa.Alloc); ok && a.Comment == name && val.K == VAddr && val.Addr.Kind == ALocal {
+		if a, ok := v.(*ssa.Alloc); ok && a.Comment == name && val.K == VAddr && (val.Addr.Kind == ALocal || val.Addr.Kind == AObj && strings.HasPrefix(val.Addr.Key, "C$")) {
 			if found != nil {
 				return nil // ambiguous
 			}
@@ -765,7 +765,13 @@ func (f *Frame) evalCall(e *CExpr, env *Env) *Val {
 		}
 		var args []*Val
 		for i := 1; i < len(e.Args); i++ {
-			args = append(args, arg(i))
+			a := arg(i)
+			if a.K == VScalar && a.ByValue {
+				// an embedded struct passed by value
+				at := a.T.Underlying().(*types.Pointer).Elem()
+				a = f.load(&Addr{Kind: AObj, Obj: a.X, Key: "F$" + typeKey(at), T: at}, env.State)
+			}
+			args = append(args, a)
 		}
 		return f.detApply(key, key, args)
 	case "abs":
